@@ -284,10 +284,19 @@ uint8_t* CaptureModulePayload::fillWithString(uint8_t* ptr, const std::string_vi
     return ptr;
 }
 
-const uint8_t* CaptureModulePayload::initStringView(const uint8_t* ptr, std::string_view& str)
+const uint8_t* CaptureModulePayload::initStringView(const uint8_t* ptr, std::string_view& str) const
 {
+    // A length field and the bytes it announces have to lie inside the payload
+    const uint8_t* end = payloadData.data() + payloadData.size();
+    str = std::string_view{};
+    if (ptr == nullptr || end < ptr || static_cast<size_t>(end - ptr) < sizeof(uint16_t))
+        return nullptr;
+
     uint16_t length = swapEndian(*reinterpret_cast<const uint16_t*>(ptr));
     ptr += sizeof(uint16_t);
+    if (static_cast<size_t>(end - ptr) < length)
+        return nullptr;
+
     str = std::string_view{reinterpret_cast<const char*>(ptr), length};
     ptr += length;
 
